@@ -211,7 +211,7 @@ def check(sc):
                 else:
                     for k in range(n):
                         w = np.datetime64(start + dt.timedelta(minutes=sc["sim"]["period"] * k))
-                        if da[k] != w:
+                        if abs((da[k] - w) / np.timedelta64(1, "us")) > 2:
                             out.add("C18/datetimes", "entry %d is %s, expected %s" % (k, da[k], w))
                             break
     except Exception as x:
